@@ -76,6 +76,14 @@ func RunC19(c *Ctx) {
 	simple := func(name string, call func(d []byte) error) allocProbe {
 		return allocProbe{name, func(d []byte) (func() error, bool) { return func() error { return call(d) }, true }}
 	}
+	stackInput := func(name string, call func(d []byte) error) allocProbe {
+		return allocProbe{name + " (input in the caller's stack frame)", func(d []byte) (func() error, bool) {
+			if len(d) > 64 {
+				return nil, false
+			}
+			return func() error { return call(d) }, true
+		}}
+	}
 	probes := map[string][]allocProbe{
 		"number": {
 			simple("ReadInt64", func(d []byte) error { _, _, e := rjson.ReadInt64(d); return e }),
@@ -92,8 +100,60 @@ func RunC19(c *Ctx) {
 			simple("DecodeUint32", func(d []byte) error { _, e := rjson.DecodeUint32(d, &u32); return e }),
 			simple("DecodeUint", func(d []byte) error { _, e := rjson.DecodeUint(d, &un); return e }),
 			simple("DecodeFloat64", func(d []byte) error { _, e := rjson.DecodeFloat64(d, &f64); return e }),
+			// the input lives in the CALLER'S STACK FRAME (a local array, or []byte(shortString)): if a
+			// reader lets its data parameter escape, every such caller pays one heap allocation per call
+			// although results are unchanged (seeded change C19r7-m1: an error message that formats
+			// data[:n], on a path that is never taken here, made ReadFloat64's input escape). The calls
+			// are written out one by one: escape analysis does not see through a function value.
+			stackInput("ReadFloat64", func(d []byte) error {
+				var a [64]byte
+				_, _, e := rjson.ReadFloat64(a[:copy(a[:], d)])
+				return e
+			}),
+			stackInput("DecodeFloat64", func(d []byte) error {
+				var a [64]byte
+				var f float64
+				_, e := rjson.DecodeFloat64(a[:copy(a[:], d)], &f)
+				return e
+			}),
+			stackInput("ReadInt64", func(d []byte) error {
+				var a [64]byte
+				_, _, e := rjson.ReadInt64(a[:copy(a[:], d)])
+				return e
+			}),
+			stackInput("ReadUint64", func(d []byte) error {
+				var a [64]byte
+				_, _, e := rjson.ReadUint64(a[:copy(a[:], d)])
+				return e
+			}),
+			stackInput("ReadInt32", func(d []byte) error {
+				var a [64]byte
+				_, _, e := rjson.ReadInt32(a[:copy(a[:], d)])
+				return e
+			}),
+			stackInput("DecodeUint", func(d []byte) error {
+				var a [64]byte
+				var u uint
+				_, e := rjson.DecodeUint(a[:copy(a[:], d)], &u)
+				return e
+			}),
 		},
 		"literal": {
+			stackInput("ReadBool", func(d []byte) error {
+				var a [64]byte
+				_, _, e := rjson.ReadBool(a[:copy(a[:], d)])
+				return e
+			}),
+			stackInput("ReadNull", func(d []byte) error {
+				var a [64]byte
+				_, e := rjson.ReadNull(a[:copy(a[:], d)])
+				return e
+			}),
+			stackInput("NextTokenType", func(d []byte) error {
+				var a [64]byte
+				_, _, e := rjson.NextTokenType(a[:copy(a[:], d)])
+				return e
+			}),
 			simple("ReadBool", func(d []byte) error { _, _, e := rjson.ReadBool(d); return e }),
 			simple("ReadNull", func(d []byte) error { _, e := rjson.ReadNull(d); return e }),
 			simple("DecodeBool", func(d []byte) error { _, e := rjson.DecodeBool(d, &bl); return e }),
